@@ -4,6 +4,7 @@ from concurrent.futures import ThreadPoolExecutor
 import checklib
 from checklib import Prop, ROOT, REPO, PY
 import regexgen
+import engine_diff
 
 STALL_S = 1.0          # "no short input can stall a caller": any input of <= 64 chars taking longer is a violation
 LONG_S = 8.0           # an input of 128 chars must finish within this
@@ -197,6 +198,12 @@ class C19(Prop):
         # model cost trend (exact node counts from the Lean model) for the same families
         drv = ctx["driver"]
         if drv is not None:
+            # the ENGINE model itself against CPython on random expressions of the modelled fragment
+            n, bad = engine_diff.run(drv, ctx["rng"], 3000 if thorough else 400, 12)
+            ctx["dist"]["engine_model_vs_cpython"] = {"cases": n, "disagreements": len(bad)}
+            for b in bad[:2]:
+                failures.append({"case": {"op": "engine-diff", "args": b}, "observed": b["model"], "required": b["real"],
+                                 "kind": "engine-model-disagreement"})
             reqs, keys = [], []
             for e in pats:
                 if e["kind"] != "match":
